@@ -222,6 +222,72 @@ pub fn check_law(c: &Bin) -> Outcome {
     pass_n(true, vec![if (x < 0) != (y < 0) { "law-mixed-signs" } else { "law-same-signs" }])
 }
 
+/// several operations one after the other on the same thread (separate programs, one context): each is exact or an
+/// error on its own, whatever was computed before it
+#[derive(Clone, Debug, Serialize, Deserialize)]
+pub struct Seq {
+    pub steps: Vec<Bin>,
+}
+
+pub fn check_seq(c: &Seq) -> Outcome {
+    let mut errors = 0;
+    for (k, st) in c.steps.iter().enumerate() {
+        match check_bin(st) {
+            Outcome::Fail(m) => return fail(format!("step {k} of {:?}: {m}", c.steps.iter().map(|b| format!("{:?} {} {:?}", b.a.v(), b.op, b.b.v())).collect::<Vec<_>>())),
+            Outcome::Pass { classes, .. } => {
+                if classes.iter().any(|c| *c == "overflow" || *c == "zero-divisor") {
+                    errors += 1;
+                }
+            }
+            _ => {}
+        }
+    }
+    pass_n(errors > 0 && c.steps.len() >= 2, vec![if errors > 0 { "sequence-with-an-error-step" } else { "sequence-all-values" }])
+}
+
+/// operands *written* just outside the 64-bit range: the program may be rejected, or fail, or give the exact result of the
+/// numbers written - but never a wrapped one
+#[derive(Clone, Debug, Serialize, Deserialize)]
+pub struct Written {
+    pub a: String,
+    pub b: String,
+    pub op: char,
+    pub uint: bool,
+}
+
+fn written_value(s: &str) -> i128 {
+    let t = s.trim_end_matches('u');
+    let (neg, t) = match t.strip_prefix('-') {
+        Some(r) => (true, r),
+        None => (false, t),
+    };
+    let m = if let Some(h) = t.strip_prefix("0x") { i128::from_str_radix(h, 16).unwrap() } else { t.parse::<i128>().unwrap() };
+    if neg {
+        -m
+    } else {
+        m
+    }
+}
+
+pub fn check_written(c: &Written) -> Outcome {
+    let src = format!("{} {} {}", c.a, c.op, c.b);
+    let (x, y) = (written_value(&c.a), written_value(&c.b));
+    let exact: Option<i128> = match c.op {
+        '+' => Some(x + y),
+        '-' => Some(x - y),
+        '*' => x.checked_mul(y),
+        '/' => (y != 0).then(|| x / y),
+        _ => (y != 0).then(|| x % y),
+    };
+    match sut::run_src(&src, &[]) {
+        Ran::NoCompile(_) => pass_n(true, vec!["written-beyond-range:rejected-at-compile-time"]),
+        Ran::Done(R::Err(..)) => pass_n(true, vec!["written-beyond-range:execution-error"]),
+        Ran::Done(R::Val(V::Int(g))) if !c.uint && exact == Some(g as i128) => pass_n(true, vec!["written-beyond-range:exact"]),
+        Ran::Done(R::Val(V::UInt(g))) if c.uint && exact == Some(g as i128) => pass_n(true, vec!["written-beyond-range:exact"]),
+        o => fail(format!("`{src}`: the numbers written give {exact:?}; a compile error, an execution error or that exact value are acceptable, observed {} (a wrapped operand or result)", o.show())),
+    }
+}
+
 fn gen_opnd(u: &mut Chooser, ty: usize) -> Opnd {
     let ib = i64_boundary();
     let ub = u64_boundary();
@@ -248,7 +314,7 @@ fn gen_opnd(u: &mut Chooser, ty: usize) -> Opnd {
 
 pub fn run(r: &mut Runner) {
     r.rule = "cases: (a, b, operator, spelling) over i64/u64 boundary sets (exhaustive) and random uniform / log-uniform / near-boundary operands, \
-              spelled as literals, bare signed literals and context variables; unary minus over the i64 set; int/uint/double mixtures. \
+              spelled as literals, bare signed literals and context variables; unary minus over the i64 set; int/uint/double mixtures; sequences of operations on one thread (remainder, quotient, remainder ... over the same operands); operands written just beyond the range. \
               Oracle: i128 arithmetic + range test; overflow and zero-divisor errors recognised by message. Non-trivial: the exact result overflows or lies \
               within 2^10 of a type boundary, the divisor is 0 or ±1, signs are mixed under / or %, or operand types are mixed; distinct by (a, b, op, spelling)."
         .into();
@@ -343,7 +409,50 @@ pub fn run(r: &mut Runner) {
         let ub = ub.clone();
         r.sweep_fn("div-rem-laws-uint", nu * nu, move |i| Bin { a: Opnd::U(ub[(i / nu) as usize]), b: Opnd::U(ub[(i % nu) as usize]), op: '/', form: 1 }, check_law);
     }
+    {
+        // remainder first, then the quotient, then the remainder again, for every boundary pair (the exhaustive pair sweeps
+        // above run `/` before `%`)
+        let ib2 = ib.clone();
+        r.sweep_fn(
+            "int-rem-div-rem-sequences",
+            ni * ni,
+            move |i| {
+                let (a, b) = (Opnd::I(ib2[(i / ni) as usize]), Opnd::I(ib2[(i % ni) as usize]));
+                let st = |op: char| Bin { a: a.clone(), b: b.clone(), op, form: 1 };
+                Seq { steps: vec![st('%'), st('/'), st('%'), st('*'), st('/')] }
+            },
+            check_seq,
+        );
+        let mut cases = vec![];
+        let ints = ["9223372036854775806", "9223372036854775807", "9223372036854775808", "9223372036854775809", "0x7fffffffffffffff", "0x8000000000000000", "0x8000000000000001", "-9223372036854775808", "-9223372036854775809", "-0x8000000000000000", "-0x8000000000000001", "18446744073709551616", "0xffffffffffffffff"];
+        let uints = ["18446744073709551614u", "18446744073709551615u", "18446744073709551616u", "18446744073709551617u", "0xffffffffffffffffu", "0x10000000000000000u", "99999999999999999999u", "36893488147419103232u"];
+        for (set, small, uint) in [(&ints[..], ["0", "1", "2", "-1"], false), (&uints[..], ["0u", "1u", "2u", "3u"], true)] {
+            for a in set {
+                for b in small.iter().chain(set.iter()) {
+                    for op in OPS {
+                        cases.push(Written { a: a.to_string(), b: b.to_string(), op, uint });
+                        cases.push(Written { a: b.to_string(), b: a.to_string(), op, uint });
+                    }
+                }
+            }
+        }
+        r.sweep("operands-written-beyond-the-range", cases, check_written);
+    }
     let n = r.tier.n(20_000, 2_000_000);
+    r.random(
+        "operation-sequences",
+        40,
+        n / 10,
+        |u| {
+            let ty = u.below(2);
+            let hot: Vec<Opnd> = if ty == 0 { [i64::MIN, -1, 0, 1, i64::MAX, 2, -2].iter().map(|x| Opnd::I(*x)).collect() } else { [0u64, 1, 2, u64::MAX, 1 << 63].iter().map(|x| Opnd::U(*x)).collect() };
+            let mut pool: Vec<Opnd> = (0..2 + u.below(2)).map(|_| if u.flip() { u.pick(&hot).clone() } else { gen_opnd(u, ty) }).collect();
+            pool.push(u.pick(&hot).clone());
+            let steps = (0..2 + u.below(7)).map(|_| Bin { a: u.pick(&pool).clone(), b: u.pick(&pool).clone(), op: *u.pick(&['/', '%', '/', '%', '*', '+', '-']), form: if ty == 0 { u.below(3) as u8 } else { u.below(2) as u8 } }).collect();
+            Seq { steps }
+        },
+        check_seq,
+    );
     r.random(
         "random-pairs",
         12,
